@@ -197,10 +197,18 @@ func (w *world) oracles(n *node, st *stepRec) {
 	}
 }
 
+// storeUnreadable is raised when GetCurrent/GetFinished of the real store fail.
+type storeUnreadable struct {
+	node string
+	err  error
+}
+
+func (s storeUnreadable) Error() string { return s.node + ": " + s.err.Error() }
+
 func mustSnapshot(n *node) storeProj {
 	sp, err := n.snapshot()
 	if err != nil {
-		panic(err)
+		panic(storeUnreadable{n.id.name, err})
 	}
 	return sp
 }
